@@ -1,15 +1,18 @@
 (* Construction of a child's environment (definitions only).
-   LaneBasedExecutionQueue::executeProcess (lines 403-427) then spawnProcess (Subprocess.cpp lines 802-804, 854-857),
+   LaneBasedExecutionQueue::executeProcess (lines 403-431) then spawnProcess (Subprocess.cpp lines 802-804, 854-857),
    all through POSIXEnvironment::setIfMissing (include/llbuild/Basic/POSIXEnvironment.h): the first writer of a key
    wins, entries keep their insertion order (envStorage), each entry is rendered  key '=' value.
 
    Order of the writers AS THE CODE HAS IT:
      1. LLBUILD_BUILD_ID, LLBUILD_LANE_ID
-     2. the requested environment, in order
+     2. the requested environment, in order, without the keys spawnProcess assigns itself
+        (isProcessAssignedEnvironmentKey: LLBUILD_TASK_ID, LLBUILD_CONTROL_FD)
      3. if attributes.inheritEnvironment: the queue's base environment, each entry split at its first '='
-        (an entry without '=' becomes key = entry, value = "")
-     4. LLBUILD_TASK_ID                      (so a requested or inherited LLBUILD_TASK_ID wins over the real one)
-     5. LLBUILD_CONTROL_FD when a control pipe exists (same remark) *)
+        (an entry without '=' becomes key = entry, value = ""), again without those two keys
+     4. LLBUILD_TASK_ID
+     5. LLBUILD_CONTROL_FD when a control pipe exists
+   [build_env_unrepaired] is the construction before the repair a51183e (no filtering in 2 and 3): there a requested
+   or inherited LLBUILD_TASK_ID / LLBUILD_CONTROL_FD won over the real one. *)
 From LLB Require Import Base.Bytes.
 Local Open Scope N_scope.
 
@@ -45,16 +48,33 @@ Definition K_LANE_ID : bytes := [76;76;66;85;73;76;68;95;76;65;78;69;95;73;68].
 Definition K_TASK_ID : bytes := [76;76;66;85;73;76;68;95;84;65;83;75;95;73;68].
 Definition K_CONTROL_FD : bytes := [76;76;66;85;73;76;68;95;67;79;78;84;82;79;76;95;70;68].
 
+(* isProcessAssignedEnvironmentKey *)
+Definition process_assigned (k : bytes) : bool := bytes_eqb k K_TASK_ID || bytes_eqb k K_CONTROL_FD.
+
+Definition passed_on (l : env) : env := filter (fun kv => negb (process_assigned (fst kv))) l.
+
 (* the writers in the order of the code *)
 Definition sources (build_id lane_id task_id : bytes) (requested : env) (inherit : bool) (base : list bytes)
            (control_fd : option bytes) : env :=
   [(K_BUILD_ID, build_id); (K_LANE_ID, lane_id)]
-  ++ requested
-  ++ (if inherit then map split_eq base else [])
+  ++ passed_on requested
+  ++ (if inherit then passed_on (map split_eq base) else [])
   ++ [(K_TASK_ID, task_id)]
   ++ match control_fd with Some fd => [(K_CONTROL_FD, fd)] | None => [] end.
 
 Definition build_env (build_id lane_id task_id : bytes) (requested : env) (inherit : bool) (base : list bytes)
+           (control_fd : option bytes) : env :=
+  let e0 := set_if_missing (set_if_missing [] K_BUILD_ID build_id) K_LANE_ID lane_id in
+  let e1 := set_all e0 (passed_on requested) in
+  let e2 := if inherit then set_all e1 (passed_on (map split_eq base)) else e1 in
+  let e3 := set_if_missing e2 K_TASK_ID task_id in
+  match control_fd with
+  | Some fd => set_if_missing e3 K_CONTROL_FD fd
+  | None => e3
+  end.
+
+(* before the repair: every requested / inherited entry was passed on *)
+Definition build_env_unrepaired (build_id lane_id task_id : bytes) (requested : env) (inherit : bool) (base : list bytes)
            (control_fd : option bytes) : env :=
   let e0 := set_if_missing (set_if_missing [] K_BUILD_ID build_id) K_LANE_ID lane_id in
   let e1 := set_all e0 requested in
